@@ -211,27 +211,19 @@ theorem offerBind_outq (e : EP) (b : BindIn) : (offerBind e b).outq = e.outq := 
   unfold offerBind; split <;> rfl
 
 /-- Processing any frame on a running endpoint never ends the receive loop. -/
-theorem processFrame_continues (e : EP) (f : Frame) (ig : Bool)
-    (hm : e.muxAlive = true) (ho : e.outClosed = false)
-    (hreq : ∀ fid req, lookup e.flows fid = some (.requested req) → (e.opens.find? (·.req = req)).isSome) :
+theorem processFrame_continues (e : EP) (f : Frame) (ig : Bool) (ho : e.outClosed = false) :
     (processFrame e f ig).2.2 = none := by
   cases f with
   | connect fid rwnd port host =>
     simp only [processFrame]
     split
     · rfl
-    · simp [ho, hm, EP.enqFrame]
+    · simp only [ho, Bool.false_eq_true, if_false]
+      split <;> rfl
   | acknowledge fid n =>
     simp only [processFrame]
-    split
-    · rfl
-    · rename_i req hl
-      have := hreq _ _ hl
-      split
-      · rfl
-      · rename_i hn; simp [hn] at this
-    · rfl
-    · rfl
+    repeat' split
+    all_goals rfl
   | reset fid => simp [processFrame]
   | finish fid =>
     simp only [processFrame]
@@ -243,11 +235,11 @@ theorem processFrame_continues (e : EP) (f : Frame) (ig : Bool)
   | bind fid bt port host =>
     simp only [processFrame]
     repeat' split
-    all_goals first | rfl | simp_all
+    all_goals rfl
   | datagram fid port host d =>
     simp only [processFrame]
     repeat' split
-    all_goals first | rfl | simp_all
+    all_goals rfl
 
 /-- Processing a `Reset` never appends a `Reset`. -/
 theorem processFrame_reset_no_reset (e : EP) (fid : Nat) (ig : Bool) :
@@ -326,8 +318,11 @@ theorem processFrame_other_obj (e : EP) (f : Frame) (ig : Bool) (j : Nat) (hj : 
     simp only [processFrame]
     split
     · simp [EP.enqFrame]
-    · repeat' split
-      all_goals simp [EP.enqFrame, offerAccept_objs, happ]
+    · have hjl : j ≠ e.objs.length := by omega
+      have hmo : ∀ (x : EP) (f : Obj → Obj), (x.modObj e.objs.length f).objs[j]? = x.objs[j]? :=
+        fun x f => modObj_get_ne x _ _ f hjl
+      repeat' split
+      all_goals simp [EP.enqFrame, offerAccept_objs, happ, hmo]
   | acknowledge fid n =>
     have h := hne fid rfl
     simp only [processFrame]
@@ -335,7 +330,10 @@ theorem processFrame_other_obj (e : EP) (f : Frame) (ig : Bool) (j : Nat) (hj : 
     · rename_i i hl
       have : j ≠ i := by intro hc; subst hc; exact h hl
       exact modObj_get_ne _ _ _ _ this
-    · split <;> simp [happ]
+    · have hjl : j ≠ e.objs.length := by omega
+      have hmo : ∀ (x : EP) (f : Obj → Obj), (x.modObj e.objs.length f).objs[j]? = x.objs[j]? :=
+        fun x f => modObj_get_ne x _ _ f hjl
+      split <;> simp [happ, hmo]
     · simp [EP.enqFrame]
     · simp [EP.enqFrame]
   | reset fid =>
@@ -492,34 +490,45 @@ theorem windDownFinish_resolves (e : EP) (res : ExitRes) :
     simpa using hq.2
   · simp [List.getLast?_append]
 
-/-- After an error the wind-down completes at once: the task is finished, the flow table empty, no
-    open request pending, and the task's result is that error. -/
-theorem windDown_error_resolves (e : EP) (drain : Bool) (res : ExitRes) (hres : res ≠ .ok) :
-    let r := windDown e drain res
+/-- The tail of the wind-down finishes at once after an error or when the source has ended: the
+    task is finished, the flow table empty, the only open requests still listed are those already
+    told "rejected", and the task's result is `res`. -/
+theorem windDownTail_resolves (e1 : EP) (flushed : List Ev) (srcEnded : Bool) (res : ExitRes)
+    (hc : srcEnded = true ∨ res ≠ .ok) :
+    let r := windDownTail e1 flushed srcEnded res
     r.1.dead = true ∧ r.1.flows = [] ∧ (∀ q ∈ r.1.opens, q.req ∈ r.1.retryq) ∧ r.1.park = none ∧
     r.2.getLast? = some (.exit res) := by
-  have hb : (res != .ok) = true := by simpa using hres
-  simp only [windDown, hb, Bool.or_true, if_true]
-  generalize hE : (windDownInbox _ _) = w
-  obtain ⟨e6, evs6, ended⟩ := w
-  have := windDownFinish_resolves { e6 with inbox := [] } res
-  simp only at this ⊢
+  have hb : ((windDownInbox e1 e1.inbox).2.2 || srcEnded || res != .ok) = true := by
+    rcases hc with h | h
+    · simp [h]
+    · have : (res != .ok) = true := by simpa using h
+      simp [this]
+  simp only [windDownTail, hb, if_true]
+  have := windDownFinish_resolves { (windDownInbox e1 e1.inbox).1 with inbox := [] } res
+  simp only at this
   obtain ⟨h1, h2, h3, h4, _, h6⟩ := this
   refine ⟨h1, h2, h3, h4, ?_⟩
   rw [List.getLast?_append, h6]; rfl
 
-theorem windDown_srcEnded_resolves (e : EP) (drain : Bool) (res : ExitRes) (hs : e.srcEnded = true) :
-    let r := windDown e drain res
+/-- Errors never drain (`should_drain` is false on those paths): the wind-down is its tail. -/
+theorem windDown_nodrain (e : EP) (res : ExitRes) :
+    windDown e false res = windDownTail (windDownPrep e) [] e.srcEnded res := by
+  simp [windDown]
+
+/-- After an error the wind-down completes at once. -/
+theorem windDown_error_resolves (e : EP) (res : ExitRes) (hres : res ≠ .ok) :
+    let r := windDown e false res
     r.1.dead = true ∧ r.1.flows = [] ∧ (∀ q ∈ r.1.opens, q.req ∈ r.1.retryq) ∧ r.1.park = none ∧
     r.2.getLast? = some (.exit res) := by
-  simp only [windDown, hs, Bool.or_true, Bool.true_or, if_true]
-  generalize hE : (windDownInbox _ _) = w
-  obtain ⟨e6, evs6, ended⟩ := w
-  have := windDownFinish_resolves { e6 with inbox := [] } res
-  simp only at this ⊢
-  obtain ⟨h1, h2, h3, h4, _, h7⟩ := this
-  refine ⟨h1, h2, h3, h4, ?_⟩
-  rw [List.getLast?_append, h7]; rfl
+  rw [windDown_nodrain]
+  exact windDownTail_resolves _ _ _ _ (Or.inr hres)
+
+theorem windDown_srcEnded_resolves (e : EP) (res : ExitRes) (hs : e.srcEnded = true) :
+    let r := windDown e false res
+    r.1.dead = true ∧ r.1.flows = [] ∧ (∀ q ∈ r.1.opens, q.req ∈ r.1.retryq) ∧ r.1.park = none ∧
+    r.2.getLast? = some (.exit res) := by
+  rw [windDown_nodrain]
+  exact windDownTail_resolves _ _ _ _ (Or.inl hs)
 
 theorem disallowAll_outq (e : EP) (l : List (Nat × Slot)) : (disallowAll e l).outq = e.outq := by
   induction l generalizing e with
@@ -528,15 +537,73 @@ theorem disallowAll_outq (e : EP) (l : List (Nat × Slot)) : (disallowAll e l).o
     obtain ⟨fid, s⟩ := p
     cases s <;> simp only [disallowAll] <;> rw [ih] <;> rfl
 
-theorem windDown_drain_flushes (e : EP) (res : ExitRes) :
-    ∃ rest, (windDown e true res).2 = e.outq.map Ev.wire ++ Ev.wireClose :: rest := by
-  simp only [windDown, if_true, disallowAll_outq]
-  generalize hE : (windDownInbox _ _) = w
-  obtain ⟨e6, evs6, ended⟩ := w
-  simp only
+theorem disallowAll_sinkRoom (e : EP) (l : List (Nat × Slot)) : (disallowAll e l).sinkRoom = e.sinkRoom := by
+  induction l generalizing e with
+  | nil => rfl
+  | cons p l ih =>
+    obtain ⟨fid, s⟩ := p
+    cases s <;> simp only [disallowAll] <;> rw [ih] <;> rfl
+
+/-- The tail hands `flushed` to the sink first, then closes it. -/
+theorem windDownTail_flushes (e1 : EP) (flushed : List Ev) (srcEnded : Bool) (res : ExitRes) :
+    ∃ rest, (windDownTail e1 flushed srcEnded res).2 = flushed ++ Ev.wireClose :: rest := by
+  simp only [windDownTail]
   split
   · exact ⟨_, by simp only [List.append_assoc, List.singleton_append, List.cons_append]; rfl⟩
   · exact ⟨_, by simp only [List.append_assoc, List.singleton_append, List.cons_append]; rfl⟩
+
+theorem sendSome_unlimited (e : EP) (h : e.sinkRoom = none) :
+    sendSome e = ({ e with outq := [] }, e.outq.map .wire) := by
+  simp [sendSome, h]
+
+/-- What `sendSome` hands to the sink followed by what it leaves queued is the queue, in order. -/
+theorem sendSome_split (e : EP) :
+    ∃ sent, (sendSome e).2 = sent.map Ev.wire ∧ sent ++ (sendSome e).1.outq = e.outq := by
+  unfold sendSome
+  cases h : e.sinkRoom with
+  | none => exact ⟨e.outq, rfl, by simp⟩
+  | some n => exact ⟨e.outq.take n, rfl, by simp⟩
+
+theorem dropPrep_outq (e : EP) : (dropPrep e).outq = e.outq := by
+  simp only [dropPrep]; exact disallowAll_outq _ _
+
+theorem dropPrep_sinkRoom (e : EP) : (dropPrep e).sinkRoom = e.sinkRoom := by
+  simp only [dropPrep]; exact disallowAll_sinkRoom _ _
+
+/-- Local drop with a sink that accepts everything: the whole queue goes out, in order, before the
+    close. -/
+theorem windDown_drain_flushes (e : EP) (res : ExitRes) (hs : e.sinkRoom = none) :
+    ∃ rest, (windDown e true res).2 = e.outq.map Ev.wire ++ Ev.wireClose :: rest := by
+  have h1 : (dropPrep e).sinkRoom = none := by rw [dropPrep_sinkRoom]; exact hs
+  simp only [windDown, if_true]
+  rw [sendSome_unlimited _ h1]
+  simp only [List.isEmpty_nil, if_true, dropPrep_outq]
+  exact windDownTail_flushes _ _ _ _
+
+/-- Local drop under back-pressure: what the sink accepts goes out at once, in order; if something
+    remains, the wind-down parks in its drain loop with exactly the remainder still queued, in
+    order; otherwise the sink is closed right after the last message. -/
+theorem windDown_drain_partial (e : EP) (res : ExitRes) :
+    ∃ sent, sent ++ (sendSome (dropPrep e)).1.outq = e.outq ∧ (sendSome (dropPrep e)).2 = sent.map Ev.wire ∧
+      (((sendSome (dropPrep e)).1.outq ≠ [] →
+          (windDown e true res).2 = sent.map Ev.wire ∧ (windDown e true res).1.outq = (sendSome (dropPrep e)).1.outq ∧
+          (windDown e true res).1.draining = some res) ∧
+       ((sendSome (dropPrep e)).1.outq = [] →
+          ∃ rest, (windDown e true res).2 = e.outq.map Ev.wire ++ Ev.wireClose :: rest)) := by
+  obtain ⟨sent, hs1, hs2⟩ := sendSome_split (dropPrep e)
+  rw [dropPrep_outq] at hs2
+  refine ⟨sent, hs2, hs1, ?_, ?_⟩
+  · intro hne
+    have hq : (sendSome (dropPrep e)).1.outq.isEmpty = false := by
+      cases h : (sendSome (dropPrep e)).1.outq <;> simp_all
+    simp only [windDown, if_true, hq, Bool.false_eq_true, if_false]
+    exact ⟨hs1, trivial, trivial⟩
+  · intro hempty
+    have hq : (sendSome (dropPrep e)).1.outq.isEmpty = true := by simp [hempty]
+    simp only [windDown, if_true, hq]
+    rw [hempty, List.append_nil] at hs2
+    rw [hs1, hs2]
+    exact windDownTail_flushes _ _ _ _
 
 /-! ### Opening streams -/
 
